@@ -542,6 +542,21 @@ def csr_array(interp, args, kwargs, lineno):
             if v is None or c is None:
                 issues.append(('X1-layout', f"positions {lo}..+{n} are written in the row array (line {ln}) but not in the " + ('value' if v is None else 'column') + " array", ln))
                 continue
+            rfull, cfull, vfull = snap(val), snap(c[3]), snap(v[3])
+            if rfull.segs is not None and len(rfull.segs) > 1:
+                # one contiguous range filled from a concatenation of several blocks
+                nseg = len(rfull.segs)
+                okc = cfull.ndim == 0 or (cfull.segs is not None and len(cfull.segs) == nseg)
+                okv = vfull.ndim == 0 or (vfull.segs is not None and len(vfull.segs) == nseg)
+                if not (okc and okv):
+                    issues.append(('X1-layout', f"positions {lo}..+{n}: block structure of rows/cols/values differs", ln))
+                    continue
+                for k in range(nseg):
+                    entries.append(dict(rows=_squeeze(rfull.segs[k]),
+                                        cols=_squeeze(cfull if cfull.ndim == 0 else cfull.segs[k]),
+                                        vals=_squeeze(vfull if vfull.ndim == 0 else vfull.segs[k]),
+                                        block=lineno, sign=1, seg=(ln, k), rng=(lo, n)))
+                continue
             r = _squeeze(_seg_arr(val))
             ca = _squeeze(_seg_arr(c[3]))
             va = _squeeze(_seg_arr(v[3]))
